@@ -282,11 +282,16 @@ def solve_all(obs, rounds=((("z3", 4), ("cvc5", 4)), (("cvc5", 40), ("z3", 40), 
         o.model = None
         o.verdict = None
         o.info = {}
+        o.hint_model = None
     todo = list(range(len(obs)))
     p = pool()
-    for rnd in rounds:
+    for rnd_index, rnd in enumerate(rounds):
         if not todo:
             break
+        if rnd_index >= 2:
+            todo = [i for i in todo if not getattr(obs[i], "hint_model", None)]
+            if not todo:
+                break
         jobs = []
         for i in todo:
             for eng, tl in rnd:
@@ -325,10 +330,13 @@ def solve_all(obs, rounds=((("z3", 4), ("cvc5", 4)), (("cvc5", 40), ("z3", 40), 
                 r, info, secs = res.get((i, "ground"), ("unknown", None, 0))
                 obs[i].by["ground"] = r
                 obs[i].secs["ground"] = secs
-                if r == "sat":
+                if r == "sat" and not getattr(obs[i], "smt2_hint", None):
                     obs[i].model = info
                     obs[i].verdict = "sat"
                 else:
+                    if r == "sat":
+                        # model of the HINT query only (abstraction atoms free): keep solving, but only one more round
+                        obs[i].hint_model = info
                     nxt.append(i)
             todo = nxt
     if todo and ground:
@@ -341,7 +349,13 @@ def solve_all(obs, rounds=((("z3", 4), ("cvc5", 4)), (("cvc5", 40), ("z3", 40), 
             if r == "sat":
                 o.model = info
                 o.verdict = "sat"
-    for i in todo:
-        if obs[i].verdict is None:
-            obs[i].verdict = "unknown"
+    for o in obs:
+        if o.verdict is None and getattr(o, "hint_model", None):
+            # undecided by the solvers, refuted on the hint query: a candidate for the driver to replay
+            o.model = o.hint_model
+            o.verdict = "sat"
+            o.by["hint"] = "sat"
+    for o in obs:
+        if o.verdict is None:
+            o.verdict = "unknown"
     return obs
